@@ -67,7 +67,7 @@ func (o SOp) String() string {
 		if e.Pad {
 			addr = "k+"
 		}
-		if o.Kind == "prop" || o.Kind == "legacy-prop" || o.Kind == "twin-prop" {
+		if o.Kind == "prop" || o.Kind == "legacy-prop" || o.Kind == "twin-prop" || strings.HasPrefix(o.Kind, "msign-prop") {
 			fmt.Fprintf(&sb, " %c%s(slot=%d,r%d,d%d)", 'A'+e.Key, addr, e.Slot, e.Root, e.Dom)
 		} else {
 			fmt.Fprintf(&sb, " %c%s(%d->%d,r%d,d%d)", 'A'+e.Key, addr, e.S, e.T, e.Root, e.Dom)
@@ -408,6 +408,45 @@ func (w *SigWorker) Continue(tr *Trace, path []SOp, verifyLast bool) error {
 			}
 			if (len(sig) > 0) != (res == core.ResultSucceeded) {
 				tr.SigProblems = append(tr.SigProblems, fmt.Sprintf("signature presence %v with result %s for %s", len(sig) > 0, resLetter(res), op))
+			}
+		case "msign-prop-first", "msign-prop-last", "msign-att-first", "msign-att-last":
+			// The slashable object travels through the generic batch endpoint: Ents[0] under its slashable domain type
+			// (the data field holds the header root or the attestation data root), beside an ordinary generic entry for
+			// the account Ents[1].Key. A signature that is valid for the slashable object counts as a release of it.
+			e := op.Ents[0]
+			a, comp := accts[e.Key], accts[op.Ents[1].Key]
+			var root [32]byte
+			var dom []byte
+			isProp := strings.HasPrefix(op.Kind, "msign-prop")
+			if isProp {
+				root, dom = PropRoot(e), PropDomain(e.Dom)
+			} else {
+				root, dom = AttRoot(e), AttDomain(e.Dom)
+			}
+			benign := make([]byte, 32)
+			benign[0] = 7
+			names := []string{"Wallet 1/" + a.Name(), "Wallet 1/" + comp.Name()}
+			data := []*rules.SignData{{Domain: dom, Data: root[:]}, {Domain: benign, Data: pat(0x66)}}
+			if strings.HasSuffix(op.Kind, "-last") {
+				names[0], names[1] = names[1], names[0]
+				data[0], data[1] = data[1], data[0]
+			}
+			ress, sigs := w.Rig.Signer.Multisign(ctx, w.Creds, names, nil, data)
+			var letters []string
+			for _, r := range ress {
+				letters = append(letters, resLetter(r))
+			}
+			tr.Obs = append(tr.Obs, strings.Join(letters, ""))
+			sroot := model.SigningRoot(root, dom)
+			for i := range sigs {
+				// (wherever in the response it appears)
+				if len(sigs[i]) > 0 && string(sigs[i]) == string(rig.SymSigBytes(a.PubBytes(), sroot[:])) {
+					if isProp {
+						tr.Released = append(tr.Released, Released{Key: e.Key, Prop: true, Slot: e.Slot, Root: root, Step: step})
+					} else {
+						tr.Released = append(tr.Released, Released{Key: e.Key, S: e.S, T: e.T, Root: root, Step: step})
+					}
+				}
 			}
 		default:
 			return fmt.Errorf("unknown op kind %q", op.Kind)
